@@ -471,6 +471,10 @@ func joinOperator(v interface{}, operator string) (string, error) {
 		}
 		// "not" with a single operand is the logical negation of that operand; with more it is the != operator
 		negation := operator == " != " && len(arr) == 1
+		if len(arr) == 1 && !negation {
+
+			return "", fmt.Errorf("operator must have at least 2 operands")
+		}
 		ops := make([]string, len(arr))
 		for i := 0; i < len(arr); i++ {
 			ope, err := parseOperand(arr[i], false, negation)
